@@ -577,13 +577,14 @@ theorem c08_python_dispatch_total_injective :
 
 /-- the translator classified the time bookkeeping of all 11 integrators, and every one it
     recognised ("?" = statement pattern not recognised, then only the tie speaks) is the variant
-    the tie runs it with -/
+    the tie runs it with (JANUS: `janus` = `dt_last_done` never written, the source before /repo 5e0351b, or
+    `once` = `r->dt_last_done = r->dt` as the other integrators, since then; both are `IsFixed`) -/
 theorem c08_step_kinds_table :
     RV.Gen.C08.stepKinds.map Prod.fst =
       ["none", "leapfrog", "whfast", "saba", "janus", "eos", "mercurius", "sei", "ias15", "bs", "trace"] ∧
     ∀ e ∈ RV.Gen.C08.stepKinds, e.2 = "?" ∨
       e ∈ [("none", "once"), ("leapfrog", "halves"), ("whfast", "halves"), ("saba", "once"),
-           ("janus", "janus"), ("eos", "once"), ("mercurius", "once"), ("sei", "halves"),
+           ("janus", "janus"), ("janus", "once"), ("eos", "once"), ("mercurius", "once"), ("sei", "halves"),
            ("ias15", "adaptive"), ("bs", "adaptive"), ("trace", "once")] := by
   decide +kernel
 
